@@ -114,6 +114,7 @@ func newSim(files []*sFile) *sim {
 }
 
 func (s *sim) begin() {
+	vh.Epoch2011()
 	root := vh.NewSandbox()
 	s.roots = append(s.roots, root)
 	s.w = newRW(root)
